@@ -230,8 +230,9 @@ class Optimizer(Logger, Citable):
 
         """
 
-        return [c[2]() if c[4] == 'linear' else math.log10(c[2]())
-                for c in self.fitting_parameters]
+        return [c[2]() if p.priorMode is PriorMode.LINEAR
+                else math.log10(c[2]())
+                for c, p in zip(self.fitting_parameters, self.fitting_priors)]
 
     @property
     def fit_boundaries(self):
@@ -247,9 +248,9 @@ class Optimizer(Logger, Citable):
             ( ``bound_min`` , ``bound_max`` )
 
         """
-        return [c[-1] if c[4] == 'linear'
+        return [c[-1] if p.priorMode is PriorMode.LINEAR
                 else (math.log10(c[-1][0]), math.log10(c[-1][1]))
-                for c in self.fitting_parameters]
+                for c, p in zip(self.fitting_parameters, self.fitting_priors)]
 
     @property
     def fit_names(self):
